@@ -273,7 +273,7 @@ def asm_case_st(draw):
         "ratelimit": draw(st.sampled_from([None, 0, 1000])),
         "path": draw(st.sampled_from(["/", "/private/secret.gmi", "/pub.gmi"])),
         "peer": draw(st.sampled_from(IPS)),
-        "cert": draw(st.sampled_from(CERTS)),
+        "cert": draw(st.sampled_from(CERTS + ["hostile-v4", "hostile-bool"])),
         "prior": draw(st.sampled_from([None, None, "twin-a", "twin-b", "ec-a"])),
         "tls": draw(st.sampled_from(["1.3", "1.2"])),
     }
@@ -350,13 +350,22 @@ def run_asm(case: dict):
         return conn, log, hs, chain is not None, sslctx is not None
 
     conn, log, hs, has_chain, is_stdlib = vloop.run(scenario)
-    if not hs:
+    if not hs and not (str(case["cert"]).startswith("hostile") and not is_stdlib):
         return viol("handshake-failed", repr(conn.client.error))
     S = bytes(conn.client.plain)
     presented = fp_of(case["cert"])
     if is_stdlib:
         presented = None  # the stdlib context does not request client certificates
     info = {"S": b2s(S[:50]), "backend": "stdlib" if is_stdlib else "pyopenssl", "recorded": len(log) // 2}
+    if presented is not None and str(case["cert"]).startswith("hostile"):
+        # a certificate the TLS library accepts but that cannot be parsed: whatever the server does with the connection,
+        # nothing may be consulted with a fingerprint other than that of the presented certificate (e.g. "none")
+        for e in log:
+            if e[0] == "mw-enter" and e[5] != presented:
+                return viol("wrong-fingerprint", f"an unparsable certificate was presented; the chain was consulted with fingerprint {e[5]!r} "
+                            f"and the client got {S[:40]!r}", **info)
+        info["ref"] = "unparsable-cert"
+        return ok(**info)
     # reference over the chain as start_server orders it: certauth, acl, ratelimit
     ref = "admit"
     if ca is not None and case["path"].startswith(ca["prefix"]):
